@@ -82,4 +82,17 @@ class CompressedFileHandler(FileHandler):
     def write(self, wfile):
         decompprog = self.decompressors[self.getentry().realencoding]
         with self.vfs.open(self.getselector(), "rb") as fp:
-            subprocess.run([decompprog], stdin=fp, stdout=wfile)
+            try:
+                fp.fileno()
+                source = {"stdin": fp}
+            except OSError:
+                # A member of an archive has no descriptor to hand over.
+                source = {"input": fp.read()}
+            if not self.protocol.check_tls():
+                wfile.flush()
+                subprocess.run([decompprog], stdout=wfile, **source)
+            else:
+                # The descriptor behind a TLS connection is the raw socket:
+                # the output has to go through the connection's writer.
+                resp = subprocess.run([decompprog], capture_output=True, **source)
+                wfile.write(resp.stdout)
